@@ -244,6 +244,7 @@ def mon_out(stream, case, obs, want):
     first_connect_done = False
     clean_now = True
     persistent_v5 = cfg["proto"] == 5 and cfg["clean"] in (0, 3)
+    conn_clean = {}    # conn -> clean flag of the CONNECT written on it
     info_rec = []      # one entry per publish() call, in order: None (QoS 0 / refused) or {"mid", "done"}
     for st in tr.steps:
         i, t, p = st["i"], st["t"], st["p"]
@@ -306,6 +307,11 @@ def mon_out(stream, case, obs, want):
                 c, d = it[1], it[2]
                 if d["type"] == "CONNECT":
                     sent_on.setdefault(c, [])
+                    conn_clean[c] = bool(d.get("clean"))
+                    if conn_clean[c]:
+                        # a clean start discards the broker's half of every exchange: PUBRECs seen before do not count
+                        for r_ in live.values():
+                            r_["rec"] = False
                 conn_open_seq.setdefault(c, seq_at_start)
                 if d["type"] in ("PUBLISH", "PUBREL") and d.get("mid") in live and (d["type"] == "PUBREL" or d["qos"] > 0):
                     m = d["mid"]
@@ -313,7 +319,9 @@ def mon_out(stream, case, obs, want):
                     kind = d["type"]
                     if kind == "PUBLISH":
                         # C02: never PUBLISH again after PUBREC (persistent session)
-                        persistent = (cfg["clean"] == 0) if cfg["proto"] != 5 else (cfg["clean"] in (0, 3) and not (cfg["clean"] == 3 and False))
+                        # the session continues on this connection iff its CONNECT asked for that (clean flag 0): with
+                        # MQTT 5 "clean start on the first connect only" that is known only from the packet itself
+                        persistent = not conn_clean.get(c, (cfg["clean"] != 0) if cfg["proto"] != 5 else (cfg["clean"] not in (0, 3)))
                         if "republish" in want and conforming and r["rec"] and persistent:
                             hits.append((i, "publish-after-pubrec", f"PUBLISH mid={m} written on connection {c} after its PUBREC was received"))
                         if "dup" in want and conforming:
